@@ -16,6 +16,8 @@ import os
 import random
 import shutil
 import sys
+import time
+from concurrent.futures import ThreadPoolExecutor
 
 from insights.core import dr, serde
 from insights.core import spec_factory as sf
@@ -55,11 +57,14 @@ class CannedHostContext(HostContext):
     def __init__(self, root):
         super(CannedHostContext, self).__init__(root=root, timeout=10)
         self.table = {}
+        self.delay = {}      # command -> seconds it takes (the environment's latency, used with a thread pool)
 
     def check_output(self, cmd, timeout=None, keep_rc=False, env=None, signum=None):
         first = cmd[0] if isinstance(cmd, list) else cmd
         key = " ".join(first) if isinstance(first, (list, tuple)) else str(first)
         out = self.table[key]
+        if self.delay.get(key):
+            time.sleep(self.delay[key])
         return (0, out) if keep_rc else out
 
 
@@ -97,6 +102,7 @@ class Case(object):
         self.text = {}      # token -> text
         self.token = {}     # text -> token
         self.ctx = CannedHostContext(self.src)
+        self.pooled = bool(case.get("pooled"))
 
     # -- concretisation -----------------------------------------------------
     def concrete(self, atom, c, j, k):
@@ -144,7 +150,7 @@ class Case(object):
             out.extend(self.tok(piece))
         return out
 
-    def build_elem(self, kind, c, j, lines, args, saveas):
+    def build_elem(self, kind, c, j, lines, args, saveas, slow=0.0):
         rel = "p%d/f%d" % (c, j)
         sa = {"none": None, "file": "sv%d/x" % c, "dir": "sv%d/" % c}[saveas]
         body = "".join(x + "\n" for x in lines)
@@ -158,15 +164,18 @@ class Case(object):
         if kind == "command":
             cmd = "/bin/echo c%de%d" % (c, j)
             self.ctx.table[cmd] = body
+            self.ctx.delay[cmd] = slow
             a = args["v"][0] if args["shape"] == "str" else (tuple(args["v"]) if args["shape"] == "seq" else None)
             return sf.CommandOutputProvider(cmd, self.ctx, save_as=sa, args=a)
         if kind == "cfile":
             cmd = "%s exec k%d cat /%s" % (ENGINE, j, rel)
             self.ctx.table[cmd] = body
+            self.ctx.delay[cmd] = slow
             return sf.ContainerFileProvider(cmd, self.ctx, image="img", args=None)
         if kind == "ccmd":
             cmd = "%s exec k%d /bin/echo c%de%d" % (ENGINE, j, c, j)
             self.ctx.table[cmd] = body
+            self.ctx.delay[cmd] = slow
             return sf.ContainerCommandProvider(cmd, self.ctx, image="img", args=tuple(args["v"]) or None)
         if kind == "datasource":
             return sf.DatasourceProvider(content=list(lines), relative_path=rel, save_as=sa)
@@ -177,9 +186,13 @@ class Case(object):
             if e["failed"]:
                 raise RuntimeError("component %d failed on purpose" % c)
             vals = []
+            n = len(e["elems"])
             for j, el in enumerate(e["elems"], 1):
                 lines = [self.concrete(ln[0], c, j, k) if ln else "" for k, ln in enumerate(el["lines"], 1)]
-                vals.append(self.build_elem(e["kind"], c, j, lines, el["args"], e["saveas"]))
+                # with a thread pool the commands of a multi-output value answer at different speeds:
+                # the first element is the slowest (content is loaded lazily, when the element is written)
+                slow = (n - j) * 0.015 if (self.pooled and e["multi"]) else 0.0
+                vals.append(self.build_elem(e["kind"], c, j, lines, el["args"], e["saveas"], slow))
             return vals if e["multi"] else vals[0]
         return run
 
@@ -226,12 +239,18 @@ class Case(object):
             CUR[i] = self.producer(i, e)
         broker = dr.Broker()
         broker[HostContext] = self.ctx
-        h = Hydration(self.out)
+        pool = ThreadPoolExecutor(max_workers=4) if self.pooled else None
+        h = Hydration(self.out, pool=pool)        # insights.collect hands its thread pool to Hydration the same way
         broker.add_observer(h.make_persister(set(comps)))
         graph = {}
         for c in comps:
             graph.update(dr.get_dependency_graph(c))
-        dr.run(graph, broker)
+        try:
+            dr.run(graph, broker)
+        finally:
+            if pool:
+                pool.shutdown(wait=True)
+                stats["pooled"] += 1
         events = []
         # ---- collected
         centries, before_text = [], {}
@@ -248,7 +267,7 @@ class Case(object):
                 elems.append(dict(lines=self.lines_tok(ls), cmd=p.cmd or "", args=self.args_proj(p.args)))
             centries.append(dict(kind=kind, multi=isinstance(v, list), failed=bool(broker.exceptions.get(comp)),
                                  saveas=e["saveas"], elems=elems))
-        events.append(dict(ev="collected", comps=centries))
+        events.append(dict(ev="collected", comps=centries, pooled=self.pooled))
         # ---- persisted
         docs, env = [], []
         for i, (comp, name) in enumerate(zip(comps, names), 1):
@@ -400,7 +419,7 @@ def main():
     rng = random.Random(req.get("seed", 0))
     _ORDER["rng"] = random.Random(req.get("seed", 0) + 1)
     os.makedirs(req["base"], exist_ok=True)
-    stats = dict(archives=0, docs=0, docs_with_results=0, docs_with_errors=0, datafiles=0, faults=0, loaded=0)
+    stats = dict(pooled=0, archives=0, docs=0, docs_with_results=0, docs_with_errors=0, datafiles=0, faults=0, loaded=0)
     traces = []
     for k, case in enumerate(req["cases"]):
         c = Case(case, req["base"], rng, req.get("longlen", 70000))
